@@ -413,9 +413,30 @@ func (p *Path) mkAdd(x, y value) value {
 	if xs, ok := x.(*Sym); ok && xs.op == "sub" && tInt(xs.a[1]) == tInt(y) {
 		return xs.a[0]
 	}
+	// constant folding through a tracked sum: (a + k1) + k2 = a + (k1+k2)
+	if yok {
+		if xs, ok := x.(*Sym); ok && xs.op == "add" {
+			if k, ok := xs.a[0].(int64); ok {
+				return p.mkAdd(xs.a[1], k+yc)
+			}
+			if k, ok := xs.a[1].(int64); ok {
+				return p.mkAdd(xs.a[0], k+yc)
+			}
+		}
+	}
+	if xok {
+		if ys, ok := y.(*Sym); ok && ys.op == "add" {
+			if k, ok := ys.a[0].(int64); ok {
+				return p.mkAdd(ys.a[1], k+xc)
+			}
+			if k, ok := ys.a[1].(int64); ok {
+				return p.mkAdd(ys.a[0], k+xc)
+			}
+		}
+	}
 	xl, xh := p.ivOf(x)
 	yl, yh := p.ivOf(y)
-	return &Sym{sort: SInt, e: "(+ " + tInt(x) + " " + tInt(y) + ")", lo: addBig(xl, yl), hi: addBig(xh, yh)}
+	return &Sym{sort: SInt, e: "(+ " + tInt(x) + " " + tInt(y) + ")", lo: addBig(xl, yl), hi: addBig(xh, yh), op: "add", a: []interface{}{x, y}}
 }
 
 func (p *Path) mkSub(x, y value) value {
@@ -430,6 +451,23 @@ func (p *Path) mkSub(x, y value) value {
 	if xs, ok := x.(*Sym); ok {
 		if ys, ok := y.(*Sym); ok && xs.e == ys.e {
 			return int64(0)
+		}
+	}
+	// (a + b) - a = b, (a + b) - b = a, (a + k1) - k2 = a + (k1-k2)
+	if xs, ok := x.(*Sym); ok && xs.op == "add" {
+		if tInt(xs.a[0]) == tInt(y) {
+			return xs.a[1]
+		}
+		if tInt(xs.a[1]) == tInt(y) {
+			return xs.a[0]
+		}
+		if yok {
+			if k, ok := xs.a[0].(int64); ok {
+				return p.mkAdd(xs.a[1], k-yc)
+			}
+			if k, ok := xs.a[1].(int64); ok {
+				return p.mkAdd(xs.a[0], k-yc)
+			}
 		}
 	}
 	xl, xh := p.ivOf(x)
@@ -531,6 +569,9 @@ func (p *Path) mkLen(s value) value {
 				total = p.mkAdd(total, p.mkLen(sg))
 			}
 			return total
+		}
+		if iv, ok := p.varIv["(str.len "+s.e+")"]; ok && iv.lo != nil && iv.hi != nil && iv.lo.Cmp(iv.hi) == 0 && iv.lo.IsInt64() {
+			return iv.lo.Int64() // the length is pinned by the path condition
 		}
 		return &Sym{sort: SInt, e: "(str.len " + s.e + ")", op: "len", lo: bigZero, hi: bi(maxStrLen)}
 	}
@@ -978,6 +1019,37 @@ func (p *Path) mkIndexOf(s, sub, from value) value {
 			return int64(-1)
 		}
 		return int64(r) + fc
+	}
+	// a one-byte needle from position 0 over a concatenation whose leading
+	// segments provably do not contain it: decided on the segment list
+	if bok && len(bc) == 1 && fok && fc == 0 {
+		var before value = int64(0)
+		decided := true
+		for _, sg := range segmentsOf(s) {
+			switch sg := sg.(type) {
+			case string:
+				if k := strings.Index(sg, bc); k >= 0 {
+					return p.mkAdd(before, int64(k))
+				}
+				before = p.mkAdd(before, int64(len(sg)))
+			case *Sym:
+				if p.noContain(sg.e, bc) {
+					l := p.mkLen(sg)
+					if lo, hi := p.ivOf(l); lo != nil && hi != nil && lo.Cmp(hi) == 0 && lo.IsInt64() {
+						l = lo.Int64()
+					}
+					before = p.mkAdd(before, l)
+				} else {
+					decided = false
+				}
+			}
+			if !decided {
+				break
+			}
+		}
+		if decided {
+			return int64(-1)
+		}
 	}
 	return &Sym{sort: SInt, e: "(str.indexof " + tStr(s) + " " + tStr(sub) + " " + tInt(from) + ")", lo: bi(-1), hi: bi(maxStrLen)}
 }
